@@ -497,8 +497,10 @@ where
             let ((a, b), d_ab) = dm.min().ok_or(MatrixError::IndexError)?; // TODO: Add error
             let u = a;
             let node_height = d_ab.to_f64().unwrap() / 2.;
-            let d_au = node_height - heights[a];
-            let d_bu = node_height - heights[b];
+            // A rounded average can fall an ulp below a height already reached:
+            // a branch length is never negative
+            let d_au = non_negative(node_height - heights[a]);
+            let d_bu = non_negative(node_height - heights[b]);
 
             merged[b] = true;
             heights[u] += d_au;
@@ -556,8 +558,8 @@ where
 
         let d_ab = dm.matrix[self.tril_to_vec_index(a_i, b_i)?];
         let tree_height = d_ab.to_f64().unwrap() / 2.;
-        let d_ar = tree_height - heights[a_i];
-        let d_br = tree_height - heights[b_i];
+        let d_ar = non_negative(tree_height - heights[a_i]);
+        let d_br = non_negative(tree_height - heights[b_i]);
 
         let root_node = tree.get_mut(&virt_root).unwrap();
         root_node.set_child_edge(&a, Some(d_ar));
@@ -596,6 +598,15 @@ pub(crate) fn rowvec_to_tril_index(_size: usize, k: usize) -> (usize, usize) {
     let j = k - p * (p + 1) / 2;
 
     (i, j)
+}
+
+// Clamp a branch length that rounding made negative (NaN is left alone)
+fn non_negative(length: f64) -> f64 {
+    if length < 0. {
+        0.
+    } else {
+        length
+    }
 }
 
 #[allow(dead_code)]
